@@ -204,3 +204,46 @@ def gen_case(rng, templates=None, nops=12, nres=2, objs=None, p_wrong=0.06, weig
     objs = objs or DEFAULT_OBJS
     hist = [gen_op(mm, objs, nres, rng, p_wrong, weights) for _ in range(rng.randrange(max(1, nops // 2), nops + 1))]
     return {'mm': mm, 'templates': templates, 'objs': list(objs), 'nres': nres, 'strings': STRINGS, 'history': hist}
+
+
+def gen_focus_case(rng, template, nops=10, nres=1, objs=None):
+    """histories concentrated on ONE multi-valued feature of object 0 (positions shift a lot):
+    append/insert/pop/remove/item writes with in-range and out-of-range, positive and negative indices"""
+    mm = make_mm([template])
+    objs = objs or ['A', 'B', 'B', 'B', 'B', 'A', 'A2']
+    ff = flat_features(mm)
+    cands = [(o, fi) for o in range(len(objs)) for fi in applicable(mm, objs[o]) if ff[fi][1]['many']]
+    o, fi = cands[0]
+    fd = ff[fi][1]
+    hist = []
+    if nres:
+        hist.append(['rappend', 0, o])
+        if rng.random() < 0.5:
+            hist.append(['rappend', 0, len(objs) - 1])
+    for _ in range(nops):
+        v = conforming_values(mm, objs, fd, rng, False)
+        k = rng.choice(['append', 'append', 'append', 'insert', 'insert', 'pop', 'pop', 'remove', 'delitem',
+                        'setitem', 'extend', 'clear'] if (rng.random() < 0.9 or not nres) else ['rremove', 'rappend'])
+        idx = rng.randrange(-4, 5)
+        if k == 'append':
+            hist.append(['append', o, fi, v])
+        elif k == 'insert':
+            hist.append(['insert', o, fi, idx, v])
+        elif k == 'pop':
+            hist.append(['pop', o, fi, rng.choice([None, None, idx])])
+        elif k == 'remove':
+            hist.append(['remove', o, fi, v])
+        elif k == 'delitem':
+            hist.append(['delitem', o, fi, idx])
+        elif k == 'setitem':
+            hist.append(['setitem', o, fi, idx, v])
+        elif k == 'extend':
+            hist.append(['extend', o, fi, [conforming_values(mm, objs, fd, rng, False) for _ in range(rng.randrange(1, 4))]])
+        elif k == 'clear':
+            if rng.random() < 0.2:
+                hist.append(['clear', o, fi])
+        elif k == 'rremove':
+            hist.append(['rremove', 0, o])
+        else:
+            hist.append(['rappend', 0, rng.randrange(len(objs))])
+    return {'mm': mm, 'templates': [template], 'objs': list(objs), 'nres': nres, 'strings': STRINGS, 'history': hist}
